@@ -154,3 +154,89 @@ Fixpoint pnp (b : bool) (t : cf) : option (cf * core * core) :=
         Some (COr false tl tr, ret1, ret2)
   | _ => None
   end.
+
+(* ------------------------------------------------------------------------------------------ *)
+(** * to_cnf with the conclusions of its two proofs *)
+
+Definition dest_or (k : core) : option (core * core) :=
+  match k with KImp (KImp a KBot) b => Some (a, b) | _ => None end.
+
+(** imp_trans_match2(h1, or_distr_r()):  X -> (a/\b)\/r   |-   X -> (a\/r)/\(b\/r)
+    (or_distr_r is instantiated by match_single of its antecedent against h1's consequent) *)
+Definition s_m2_or_distr_r (h1 : core) : option core :=
+  match h1 with
+  | KImp x b0 =>
+      let? (ab, r) := dest_or b0 in
+      let? (a, b) := dest_and ab in
+      Some (KImp x (k_and (k_or a r) (k_or b r)))
+  | _ => None
+  end.
+(** imp_trans_match1(or_distr_r_rev(), h2):  (a/\b)\/r -> X   |-   (a\/r)/\(b\/r) -> X *)
+Definition s_m1_or_distr_r_rev (h2 : core) : option core :=
+  match h2 with
+  | KImp b0 x =>
+      let? (ab, r) := dest_or b0 in
+      let? (a, b) := dest_and ab in
+      Some (KImp (k_and (k_or a r) (k_or b r)) x)
+  | _ => None
+  end.
+(** imp_trans_match2(h1, or_distr_l()):  X -> a\/(b/\c)   |-   X -> (a\/b)/\(a\/c) *)
+Definition s_m2_or_distr_l (h1 : core) : option core :=
+  match h1 with
+  | KImp x b0 =>
+      let? (a, bc) := dest_or b0 in
+      let? (b, c) := dest_and bc in
+      Some (KImp x (k_and (k_or a b) (k_or a c)))
+  | _ => None
+  end.
+Definition s_m1_or_distr_l_rev (h2 : core) : option core :=
+  match h2 with
+  | KImp b0 x =>
+      let? (a, bc) := dest_or b0 in
+      let? (b, c) := dest_and bc in
+      Some (KImp (k_and (k_or a b) (k_or a c)) x)
+  | _ => None
+  end.
+
+Notation "'do?' x <- e ; k" := (rbind e (fun x => k)) (at level 200, x pattern, e at level 100, k at level 200).
+
+Fixpoint to_cnf_p (fuel : nat) (t : cf) : res (cf * core * core) :=
+  match fuel with
+  | O => Fuel
+  | S fuel =>
+      match t with
+      | CVar _ _ => let pat := cf_core t in Ok (t, s_imp_refl pat, s_imp_refl pat)
+      | CAnd _ l r =>
+          do? (tl, l1, l2) <- to_cnf_p fuel l;
+          do? (tr, r1, r2) <- to_cnf_p fuel r;
+          do? ret1 <- of_option (s_imim_and l1 r1);
+          do? ret2 <- of_option (s_imim_and l2 r2);
+          Ok (CAnd false tl tr, ret1, ret2)
+      | COr _ l r =>
+          do? (tl, l1, l2) <- to_cnf_p fuel l;
+          do? (tr, r1, r2) <- to_cnf_p fuel r;
+          do? ret1 <- of_option (s_imim_or l1 r1);
+          do? ret2 <- of_option (s_imim_or l2 r2);
+          match tl with
+          | CAnd _ a b =>
+              do? ret1' <- of_option (s_m2_or_distr_r ret1);
+              do? ret2' <- of_option (s_m1_or_distr_r_rev ret2);
+              do? (nt, p1, p2) <- to_cnf_p fuel (CAnd false (COr false a tr) (COr false b tr));
+              do? ret1'' <- of_option (s_imp_transitivity ret1' p1);
+              do? ret2'' <- of_option (s_imp_transitivity p2 ret2');
+              Ok (nt, ret1'', ret2'')
+          | _ =>
+              match tr with
+              | CAnd _ a b =>
+                  do? ret1' <- of_option (s_m2_or_distr_l ret1);
+                  do? ret2' <- of_option (s_m1_or_distr_l_rev ret2);
+                  do? (nt, p1, p2) <- to_cnf_p fuel (CAnd false (COr false tl a) (COr false tl b));
+                  do? ret1'' <- of_option (s_imp_transitivity ret1' p1);
+                  do? ret2'' <- of_option (s_imp_transitivity p2 ret2');
+                  Ok (nt, ret1'', ret2'')
+              | _ => Ok (COr false tl tr, ret1, ret2)
+              end
+          end
+      | CBot _ => Err
+      end
+  end.
